@@ -301,7 +301,8 @@ inline bool makeSource(XEnv& env, const std::string& form, const std::string& do
             h.domParser.reset(new xercesc::XercesDOMParser(nullptr, &mm)); QuietErrorHandler eh;
             h.domParser->setDoNamespaces(true); h.domParser->setErrorHandler(&eh); h.domParser->setValidationScheme(xercesc::XercesDOMParser::Val_Never); h.domParser->setCreateEntityReferenceNodes(false);
             SimInputSource src(seen, f, sysId, &env.fs.stats);
-            h.domParser->parse(src);
+            // this is the caller's own use of Xerces: what its DOM parser throws (a DOMException for version="1,0") is a failed parse of the caller, not of Xalan
+            try { h.domParser->parse(src); } catch (const xercesc::DOMException& e) { eh.failed = true; eh.msg = "DOMException " + narrowU8(e.getMessage()); }
             if (eh.failed || !h.domParser->getDocument()) { h.status = -1; h.err = eh.msg.empty() ? "parse failed" : eh.msg; }
             else {
                 h.xLiaison.reset(new XercesParserLiaison(mm)); h.xSupport.reset(new XercesDOMSupport(*h.xLiaison));
